@@ -1572,6 +1572,11 @@ def remove_redundant_transpose_pairs_ir(graph: ir.Graph) -> None:
                 continue
             if t2_node not in output_transposes:
                 continue
+            if any(t_node in output_transposes for t_node in transpose_nodes):
+                # A (self-inverse) Transpose that is both an input of the forest
+                # and a consumer of it: moving the forest to the other layout
+                # would feed it its own un-transposed output.
+                continue
 
             # Rewrite: replace transpose outputs feeding elementwise nodes with
             # their pre-transpose sources.
